@@ -110,9 +110,12 @@ def _chunk(specs):
     return [(sig, msg, s) for s in specs for sig, msg in check_value(s)]
 
 
+GRAMMAR = {"quick": "thorough", "thorough": "deep"}  # the term grammars are cheap: quick already uses the larger one
+
+
 def run(tier: str, seed: int) -> Result:
     col = Collector()
-    specs = O.value_specs(tier)
+    specs = O.value_specs(GRAMMAR[tier])
     for res in pmap(_chunk, [specs[i::48] for i in range(48)]):
         for sig, msg, s in res:
             col.add(sig, msg, {"value": s})
